@@ -145,6 +145,19 @@ CHECKS["C17"] = {
     "note": "Current-time constructs and source edits are excluded as the property allows. Process isolation is run by one shard only (fork throughput).",
 }
 
+CHECKS["C14"] = {
+    "technique": "model-based testing: random binding programs x layered data vs a reference interpreter",
+    "text": "Random programs in a small binding language (assign, capture, for, tablerow, with, include with/for/as + keyword arguments, increment/decrement, path output) bind the same four names at every layer (block scopes, locals, render arguments, front matter, template globals, environment globals, user 'now', counters) in arbitrary nesting; the engine's output must equal that of a 200-line reference interpreter implementing the documented lookup order and path rules (dotted, quoted, negative index, nested variable, size/first/last).",
+    "design_ref": "DESIGN.md §4 C14",
+    "note": "Trusts vf/ref/scope.py. A boolean used as an index is treated as unspecified (not asserted).",
+}
+CHECKS["C15"] = {
+    "technique": "metamorphic testing: invariance of partial output under caller changes and of caller output under partial changes",
+    "text": "For random caller/partial pairs (render plain, with-as, for-as, literal arguments; macro/call) R1 compares the partial's output (between sentinels) under two different preludes binding the same names by assign/capture/for/with/counter, R2 compares the caller's postlude with and without the partial's assignments, R3 requires DisabledTagError for include inside rendered partials and macro bodies.",
+    "design_ref": "DESIGN.md §4 C15",
+    "note": "Arguments are literals and globals are fixed so that only caller locals vary. State carried between items of 'render ... for' is not asserted.",
+}
+
 NOT_APPLICABLE = [
     {"property_id": p, "reason": "check not built yet in this round (work in progress; see DESIGN.md §4 for the planned oracle)"}
     for p in ALL
